@@ -23,7 +23,7 @@ pub static PROP: Prop = Prop {
         "the length a larger buffer would have allowed is recorded as a counter (would_amplify_with_big_buffer) but not judged: the daemon never passes one",
     ],
     profiles: Profiles::Ship,
-    cases: |t| t.pick(18_000, 400_000),
+    cases: |t| t.pick(36_000, 400_000),
     budget_s: |t| t.pick(40, 400),
     run,
     min_nontrivial: 300,
